@@ -88,8 +88,15 @@ EXTRA_ATOMS = [
     A("arrfn13", "struct {t}_H13 {p}h13[2];", [("{p}h13", "arr")], support="struct {t}_H13 {{ int (*f)(int, int, int, int, int, int, int, int, int, int, int, int, int); }};"),
     A("arrarr33", "struct {t}_A33 {p}a33s[2];", [("{p}a33s", "arr")], support="struct {t}_A33 {{ char big[33]; }};"),
 ]
+STD_NAME_ATOMS = []
 OVERALIGNED_ARRAY_ATOMS = ["oal1d", "oal2d", "oalrow", "i128x2d", "ldx2d"]
 FNPTR_ABI_ATOMS = ["fpvec", "fpmsv", "fppm", "fpms"]
+# typedef NAMES that bindgen maps by name (or might): the <stdint.h> / <stddef.h> families as the host libc defines them
+from .gen_fn import STD_NAMES as _STD_NAMES  # noqa: E402
+for _n, (_s, _b) in _STD_NAMES.items():
+    EXTRA_ATOMS.append(A("sd_" + _n, _n + " {p}" + _n[:3] + str(_b) + ";", [("{p}" + _n[:3] + str(_b), "sint" if _s else "uint")],
+                         support="#include <stdint.h>\n#include <stddef.h>\ntypedef long ssize_t;"))
+    STD_NAME_ATOMS.append("sd_" + _n)
 ATOM = {a.key: a for a in ATOMS + EXTRA_ATOMS}
 
 # record attributes: (key, text before `struct`, attribute after `struct`, text after the declaration)
